@@ -232,14 +232,29 @@ public:
     /** Copy constructor. */
     bitdeque(const bitdeque&) = default;
 
-    /** Move constructor. */
-    bitdeque(bitdeque&&) noexcept = default;
+    /** Move constructor. The source is left empty (with its padding reset, so that it stays usable). */
+    bitdeque(bitdeque&& other) noexcept
+        : m_deque(std::move(other.m_deque)), m_pad_begin{other.m_pad_begin}, m_pad_end{other.m_pad_end}
+    {
+        other.m_deque.clear();
+        other.m_pad_begin = other.m_pad_end = 0;
+    }
 
     /** Copy assignment operator. */
     bitdeque& operator=(const bitdeque& other) = default;
 
-    /** Move assignment operator. */
-    bitdeque& operator=(bitdeque&& other) noexcept = default;
+    /** Move assignment operator. The source is left empty (with its padding reset, so that it stays usable). */
+    bitdeque& operator=(bitdeque&& other) noexcept
+    {
+        if (this != &other) {
+            m_deque = std::move(other.m_deque);
+            m_pad_begin = other.m_pad_begin;
+            m_pad_end = other.m_pad_end;
+            other.m_deque.clear();
+            other.m_pad_begin = other.m_pad_end = 0;
+        }
+        return *this;
+    }
 
     // Iterator functions.
     iterator begin() noexcept { return {m_deque.begin(), m_pad_begin}; }
